@@ -22,6 +22,8 @@ def main(run: Run):
     run_configs(run, __name__, cfgs, must_accept=_mux.must_accept)
     from . import shadow_l1
     shadow_l1.add_to(run)
+    from . import mux_l1
+    mux_l1.add_to(run, "read")
     return run.finish(
         explanation="Multiplexer.elaborate read-side contract per layout: strobe exactness and zero-when-idle for ALL input "
                     "sequences; atomic snapshot for protocol-conforming sequences via a ghost transaction monitor and an "
